@@ -67,6 +67,8 @@ class FakeUdpSocket(object):
 
     def sendmsg(self, bufs, ancdata=(), flags=0, addr=None):
         data = b''.join(bytes(b) for b in bufs)
+        if len(data) > 65507:
+            raise OSError(90, 'Message too long')
         self.net.on_send(self, data, addr)
         return len(data)
 
